@@ -217,6 +217,8 @@ def scalar_ops(n, K, a, obj, P):
             ops.append(_call(f"transform_{n}", "transform:ident+attrfn", FN("ident"), x=FN("inc"), **f))
             # a whole-value transform and an attribute transform that do NOT commute: the documented order is value first
             ops.append(_call(f"transform_{n}", "transform:pin+attrfn", FN("pin"), x=FN("inc"), **f))
+            # the whole-value transform returns an object that exists outside the call: the attribute transform must not edit IT
+            ops.append(_call(f"transform_{n}", "transform:foreign+attrfn", FN("foreign"), x=FN("inc"), **f))
             if P.get("invalid", True):
                 ops.append(_call(f"with_{n}", "with:kw_bad", x="bad", **f))
                 ops.append(_call(f"update_{n}", "update:kw_bad", x="bad", **f))
